@@ -98,9 +98,17 @@ class A:
                 op = self.pick(sorted(OPERATORS))
                 if not any(mm[0] == "op" and mm[1] == op for mm in members):
                     members.append(("op", op, self.name()))
+        # operators that have no operator syntax are defined under their explicit name
+        if self.chance(30):
+            for dn in self.draw(st.permutations(["__le__", "__ge__", "__ne__"]))[:self.int(1, 2)]:
+                members.append(("method", {"name": dn, "params": [{"name": self.name(), "type": "Int", "default": None, "vararg": False}],
+                                           "ret": "Bool", "self_fin": self.chance(40), "abstract": False}))
         # shuffle members so that fields sit between methods
         order = self.draw(st.permutations(list(range(len(members)))))
         members = [members[i] for i in order]
+        # parents in any order (a bare parent before one that is given arguments, an interface first, ...)
+        if len(parents) > 1:
+            parents = [parents[i] for i in self.draw(st.permutations(list(range(len(parents)))))]
         return {"kind": "class", "name": name, "args": args, "parents": parents, "members": members}
 
     def interface(self):
